@@ -185,6 +185,18 @@ func RunExchangeCase(cs ExCase) *ExObs {
 	o.DAct = m.Sum(ns + "_dialer_cx_active")
 	o.DTot = m.Sum(ns + "_dialer_cx_total")
 	e.Rig.Close()
+	// cases whose write outcome is decided by a race (client already gone or not):
+	// take it from the observed completion event (err set or not)
+	for i := range o.Exs {
+		if o.Exs[i].Val.W == 9 {
+			o.Exs[i].Val.W = 0
+			for _, ev := range o.Trace {
+				if ev.Kind == "wrote" && ev.Err != "" {
+					o.Exs[i].Val.W = 1
+				}
+			}
+		}
+	}
 	o.Err = e.fail
 	return o
 }
